@@ -326,7 +326,14 @@ def d5_indexing(ctx):
     ctx.check(oks, ft, sw[0] if sw else ft.node, sw[0] if sw else "df_index", "swap applies to positive peaks with peak/trough ratio <= 1.5", "swap rule is not (peak_val > 0) & (ratio <= 1.5)", key="swap")
 
 
+def dS_shared(ctx):
+    from sa.common import rule_no_shared_mutation
+    rule_no_shared_mutation(ctx, "DS", ['ibldsp.waveforms.compute_spike_features', 'ibldsp.waveforms.find_peak', 'ibldsp.waveforms.find_trough', 'ibldsp.waveforms.find_tip', 'ibldsp.waveforms.find_tip_trough', 'ibldsp.waveforms.half_peak_point', 'ibldsp.waveforms.recovery_point', 'ibldsp.waveforms.arr_pre_post', 'ibldsp.waveforms.pick_maxima', 'ibldsp.waveforms.pick_maximum'],
+                            'features of a later batch depend on an earlier batch')
+
+
 def run(ctx):
+    ctx.run(dS_shared)
     ctx.run(d1_recovery_bound)
     ctx.run(d2_axis)
     ctx.run(d3_degree)
